@@ -146,6 +146,7 @@ void run_exec(const ExecPlan &pl) {
         add((Wide<K>) L::lowest());
         if constexpr (std::is_floating_point_v<K>) add((Wide<K>) L::max()); else add((Wide<K>) L::max() - 1);
         add((Wide<K>) data.front() - 1); add((Wide<K>) data.back() + 1); add((Wide<K>) data.back() + 2);
+        add((Wide<K>) data.front()); add((Wide<K>) data.back()); add((Wide<K>) 0);
         // a bounded sample of the distinct keys, plus every key next to a chunk boundary
         std::vector<size_t> picks;
         std::vector<size_t> firsts;
@@ -273,11 +274,25 @@ void run_exec(const ExecPlan &pl) {
     for (auto &ed : extra_direct) log_calls(ed.calls, "direct", &ed.segs, ed.ret, 1);
 
     // ---- searches ----
+    // An answer may depend neither on the queries made before it nor on there having been any: a few copies are taken
+    // of the index that has not answered a query yet; each answers one boundary query as its first, after the main loop.
+    std::vector<std::pair<K, std::unique_ptr<P>>> fresh;
+    if (n <= 3000 && !queries.empty()) {
+        std::vector<K> fq{queries.front(), queries.back(), data.front(), data.back(), K(0), queries[rng.below(queries.size())]};
+        for (auto q : fq)
+            if (std::find(queries.begin(), queries.end(), q) != queries.end()) fresh.emplace_back(q, std::make_unique<P>(*idx));
+    }
     std::vector<pgm::verif::RouteStep> rl;
-    for (auto q : queries) {
+    std::vector<std::pair<K, P *>> plan;
+    for (auto q : queries) plan.emplace_back(q, idx.get());
+    // the same query twice in a row, and an early query again at the end
+    if (!queries.empty()) { plan.emplace_back(queries.back(), idx.get()); plan.emplace_back(queries.front(), idx.get()); plan.emplace_back(queries[queries.size() / 2], idx.get()); }
+    for (auto &f : fresh) plan.emplace_back(f.first, f.second.get());
+    for (auto &qp : plan) {
+        K q = qp.first;
         rl.clear();
         pgm::verif::route_log = &rl;
-        auto r = idx->search(q);
+        auto r = qp.second->search(q);
         pgm::verif::route_log = nullptr;
         std::vector<std::vector<long long>> route_v;
         for (auto &s : rl) route_v.push_back({s.level, (long long) s.predicted, (long long) s.window_lo, (long long) s.window_hi, (long long) s.chosen, (long long) s.level_size});
